@@ -159,8 +159,11 @@ def c08():
         k = RNG.randrange(2, 6)
         secs = []
         for j in range(k):
-            cls = RNG.choice(classes)
-            secs.append((cls, secret(cls, RNG.randrange(1, 5))))
+            cls = RNG.choice(classes + ["badj9"])
+            if cls == "badj9":      # $9$-shaped but not decryptable: an opaque text secret
+                secs.append(("text", ["$9$abc", "$9$Zz1!xyz9", "$9$" + "Q" * 9 + "_", "$9$dnwg"][RNG.randrange(4)]))
+            else:
+                secs.append((cls, secret(cls, RNG.randrange(1, 5))))
         lines, used = [], []
         for _ in range(RNG.randrange(3, 9)):
             cls, s = RNG.choice(secs)
@@ -169,7 +172,8 @@ def c08():
                 s_line = js.juniper_nonrandom_encrypt(js.juniper_decrypt(s), RNG.choice(js.NUM_ALPHA))  # re-encoding
             else:
                 s_line = s
-            lines.append(RNG.choice(forms).format(s=q[0] + s_line + q[1]))
+            form = RNG.choice(forms if cls != "numeric" else forms[:4])   # all-digit BGP communities are not secrets
+            lines.append(form.format(s=q[0] + s_line + q[1]))
             used.append((cls, s, q))
         note(tuple(lines))
         fa = FileAnonymizer(anon_pwd=True, anon_ip=False, salt="s8")
@@ -208,7 +212,8 @@ def c09():
                     for (h, t) in (encl if cls in ("text", "numeric", "hex") else encl[:2]):
                         s = secret(cls, i)
                         if cls == "md5":
-                            s = md5c("x%d" % i, "abcdefgh"[: (i % 8) + 1])
+                            salts = ["abcdefgh"[: (i % 8) + 1], "1aZ9", "11abc", "1", "$"[:0] + "0x1", "12345678"]
+                            s = md5c("x%d" % i, salts[(i + len(h) + len(form)) % len(salts)])
                         if '"' in form and h:
                             continue
                         line = "  " + form.format(s=h + s + t) + "  "
